@@ -159,8 +159,8 @@ def run(ctx, rec):
     rng = ctx.rng("c14")
     prefixes = list(Prefix)
     fixed = [Decimal(m) for m in FIXED_MANTISSAS]
-    per_pair = 10 if ctx.quick else 60
-    n_rand = 4 if ctx.quick else 40
+    per_pair = 10 if ctx.quick else 150
+    n_rand = 4 if ctx.quick else 100
 
     pairs = list(itertools.product(prefixes, prefixes))
     if ctx.nshards > 1:
